@@ -19,7 +19,9 @@ import numpy as np
 
 from pyvc import native
 
-KINDS = ('threshold', 'quantile', 'smc')
+KINDS = ('threshold', 'quantile', 'smc')                              # 9 / 8 / 8 batches: trees are cut at the depth limit
+SMALL = ('threshold-small', 'quantile-small', 'smc-small')            # 3 / 4 / 6 batches: the decision trees are COMPLETE below the depth limit
+SCRIPTED = ('threshold', 'quantile', 'smc3')                          # cyclic readiness scripts (run to the end of the objective)
 BATCH_SIZE = 2
 
 
@@ -64,7 +66,10 @@ def sched_client_class(elfi):
             k = self.asked
             self.asked += 1
             self.options.append(n_options)
-            d = self.decisions[k] if k < len(self.decisions) else self.pad
+            if self.mode == 'cyclic':
+                d = self.decisions[k % len(self.decisions)]        # a readiness script replayed cyclically to the end of the run
+            else:
+                d = self.decisions[k] if k < len(self.decisions) else self.pad
             return d % n_options
 
         def _event(self):
@@ -97,7 +102,7 @@ def sched_client_class(elfi):
 
         def is_ready(self, i):
             live = i in self.tasks
-            if self.mode == 'answers':
+            if self.mode in ('answers', 'cyclic'):
                 ans = bool(self._decide(2))
             else:
                 self._event()
@@ -137,6 +142,14 @@ def _sample(elfi, model, kind, seed, mp):
         return elfi.Rejection(model['d'], batch_size=BATCH_SIZE, seed=seed, max_parallel_batches=mp).sample(3, quantile=0.2, bar=False)
     if kind == 'smc':
         return elfi.SMC(model['d'], batch_size=BATCH_SIZE, seed=seed, max_parallel_batches=mp).sample(4, thresholds=[0.4, 0.2], bar=False)
+    if kind == 'smc3':
+        return elfi.SMC(model['d'], batch_size=BATCH_SIZE, seed=seed, max_parallel_batches=mp).sample(4, thresholds=[0.4, 0.25, 0.15], bar=False)
+    if kind == 'threshold-small':
+        return elfi.Rejection(model['d'], batch_size=BATCH_SIZE, seed=seed, max_parallel_batches=mp).sample(3, threshold=0.25, bar=False)
+    if kind == 'quantile-small':
+        return elfi.Rejection(model['d'], batch_size=BATCH_SIZE, seed=seed, max_parallel_batches=mp).sample(2, quantile=0.25, bar=False)
+    if kind == 'smc-small':
+        return elfi.SMC(model['d'], batch_size=BATCH_SIZE, seed=seed, max_parallel_batches=mp).sample(3, thresholds=[0.4, 0.2], bar=False)
     raise ValueError(kind)
 
 
@@ -307,37 +320,65 @@ def _job(a):
     try:
         ref, c0 = reference(elfi, model, kind, sd)
     except Exception as e:
-        if root == () and mode == 'answers' and mp == 1:
+        if root == () and mode in ('answers', 'cyclic') and mp == 1:
             on_fail('sequential run: %s' % e, dict(kind=kind, seed=sd, max_parallel_batches=1, mode='answers', decisions=[], pad=1))
         return 0, 0, True, fails
+    if mode == 'answers-if-short':
+        if ref['n_batches'] > 5:
+            return 0, 0, True, fails         # extra seeds are used only where the sequential run is short (complete tree stays small)
+        mode = 'answers'
     cases = 0
-    if root == () and mode == 'answers' and mp == 1:
+    if root == () and mode in ('answers', 'cyclic') and mp == 1:
         cases = 1
         f0 = check_log(c0, 1, ref)
         if f0:
             on_fail('sequential run: ' + f0, dict(kind=kind, seed=sd, max_parallel_batches=1, mode='answers', decisions=[], pad=1))
+    if mode == 'cyclic':
+        # every readiness script of length <= depth over {ready, not ready}, replayed cyclically until the objective is reached
+        n = nt = 0
+        for ln in range(1, depth + 1):
+            for script in itertools.product((0, 1), repeat=ln):
+                if any(ln % q == 0 and script == script[:q] * (ln // q) for q in range(1, ln)):
+                    continue            # a repetition of a shorter script
+                f, c = check_run(elfi, model, ref, kind, sd, mp, 'cyclic', list(script), 0)
+                n += 1
+                nt += 1 if (c.maxout >= 2 or any(e[0] == 'rm' for e in c.log)) else 0
+                if f and on_fail(f, dict(kind=kind, seed=sd, max_parallel_batches=mp, mode='cyclic', decisions=list(script), pad=0)):
+                    return cases + n, nt, True, fails
+        return cases + n, nt, True, fails
     n, nt, done = enumerate_tree(elfi, model, ref, kind, sd, mp, mode, depth, on_fail, [budget], root=root, max_len=max_len)
     return cases + n, nt, done, fails
 
 
-def run(tier='quick', seed=0, stop_first=True, kinds=KINDS, depth_answers=None, depth_exec=None, workers=None):
+def run(tier='quick', seed=0, stop_first=True, kinds=None, depth_answers=None, depth_exec=None, workers=None):
     import multiprocessing as mp_
     import os
     native.import_elfi()
-    LA0 = depth_answers or (8 if tier == 'quick' else 12)
-    LS = depth_answers or (7 if tier == 'quick' else 10)          # SMC runs are ~5x dearer than Rejection runs
-    LX = depth_exec or (4 if tier == 'quick' else 6)
-    budget = 3000 if tier == 'quick' else 40000
+    quick = tier == 'quick'
+    LSM = depth_answers or (10 if quick else 14)         # small objectives: the trees end before this depth (complete enumeration)
+    LA0 = depth_answers or (6 if quick else 12)          # large Rejection objectives
+    LS = depth_answers or (5 if quick else 10)           # large SMC objective (runs are ~5x dearer)
+    LX = depth_exec or (4 if quick else 6)
+    LC = 6 if quick else 8                               # cyclic scripts
+    budget = 3000 if quick else 40000
     jobs = []
-    for sd in range(seed, seed + (1 if tier == 'quick' else 2)):
-        for kind in kinds:
-            LA = LS if kind == 'smc' else LA0
+    for sd in range(seed + 1, seed + (4 if quick else 8)):          # the small objectives are cheap: more seeds (where the objective completes varies)
+        for kind in (kinds or SMALL[:2]):
+            for mp in (2, 3, 6):
+                jobs.append((kind, sd, mp, 'answers-if-short', LSM, (), None, budget, stop_first))
+    for sd in range(seed, seed + (1 if quick else 2)):
+        for kind in (kinds or SCRIPTED):
+            for mp in (1, 2, 3, 6):
+                jobs.append((kind, sd, mp, 'cyclic', LC, (), None, budget, stop_first))
+        for kind in (kinds or (SMALL + KINDS)):
+            LA = LSM if kind in SMALL else (LS if kind.startswith('smc') else LA0)
             for mp in (1, 2, 3):
                 jobs.append((kind, sd, mp, 'answers', LA, (), SPLIT - 1 if LA >= SPLIT else None, budget, stop_first))
                 if LA >= SPLIT:
                     for root in itertools.product((0, 1), repeat=SPLIT):
                         jobs.append((kind, sd, mp, 'answers', LA, tuple(root), None, budget, stop_first))
-                jobs.append((kind, sd, mp, 'exec', LX, (), None, budget, stop_first))
+                if kind not in SMALL:
+                    jobs.append((kind, sd, mp, 'exec', LX, (), None, budget, stop_first))
     workers = workers or max(1, min(8, (os.cpu_count() or 2) // 2))
     if workers > 1:
         with mp_.get_context('fork').Pool(workers) as pool:
@@ -355,9 +396,11 @@ def run(tier='quick', seed=0, stop_first=True, kinds=KINDS, depth_answers=None, 
     if stop_first:
         fails = fails[:1]
     return dict(name='scheduled-client-exhaustive',
-                bound='objectives %s; max_parallel_batches 1..3; every is_ready answer string up to length %d (SMC: %d), then all-0 / all-1; every execution '
-                      'order of the outstanding tasks over the first %d choice points (then lazy); seeds %d..%d; batch_size %d%s'
-                      % ('/'.join(kinds), LA0, LS, LX, seed, seed + (0 if tier == 'quick' else 1), BATCH_SIZE, '' if complete else ' [run budget exhausted: enumeration incomplete]'),
+                bound='max_parallel_batches 1..3 (scripts: 1,2,3,6); (i) every readiness script of length <= %d over {ready, not ready} replayed cyclically to the end of the run, '
+                      'objectives %s; (ii) every is_ready answer string up to length %d on the small objectives %s (their decision trees end before that depth: all schedules; the two Rejection ones also for max_parallel_batches 6 and those of 3 (thorough 7) further seeds whose sequential run takes <= 5 batches) and up to '
+                      'length %d (SMC: %d) then all-0 / all-1 on %s; (iii) every execution order of the outstanding tasks over the first %d choice points (then lazy); seeds %d..%d; batch_size %d%s'
+                      % (LC, '/'.join(SCRIPTED), LSM, '/'.join(SMALL), LA0, LS, '/'.join(KINDS), LX, seed, seed + (0 if quick else 1), BATCH_SIZE,
+                         '' if complete else ' [run budget exhausted: enumeration incomplete]'),
                 rule='non-trivial = a run in which >= 2 tasks were outstanding at once or a task was cancelled',
                 cases=cases, nontrivial=nontriv, failures=fails)
 
